@@ -298,8 +298,66 @@ func c11Gates(c *Ctx, report func(sig map[string]string, art map[string]any, nam
 	return nil
 }
 
+// singleFileVariants: for programs with >= 3 declaration files, the last file generated alone
+// (as //go:generate kessoku $GOFILE does) gives the same output whatever the siblings'
+// outputs look like: absent, complete, empty (an interrupted run), cut inside the header.
+func singleFileVariants(c *Ctx, pipe *pipeline.Pipe, it *pipeline.Item, rmu *sync.Mutex, runs *int, report func(sig map[string]string, art map[string]any, name string)) {
+	srcs := it.Prog.SourceFiles()
+	if len(srcs) < 3 {
+		return
+	}
+	band := func(f string) string { return strings.TrimSuffix(f, ".go") + "_band.go" }
+	complete := map[string]string{}
+	for k, v := range it.GenSrc {
+		complete[k] = v
+	}
+	last := band(srcs[len(srcs)-1])
+	var ref string
+	for vi, variant := range []string{"siblings-absent", "siblings-complete", "siblings-empty", "siblings-cut-at-20-bytes", "siblings-cut-at-48-bytes"} {
+		for _, f := range srcs {
+			_ = os.Remove(filepath.Join(it.Dir, band(f)))
+		}
+		for _, f := range srcs[:len(srcs)-1] {
+			src := complete[band(f)]
+			var data []byte
+			switch variant {
+			case "siblings-absent":
+				continue
+			case "siblings-complete":
+				data = []byte(src)
+			case "siblings-empty":
+				data = []byte{}
+			case "siblings-cut-at-20-bytes":
+				data = []byte(src[:min(20, len(src))])
+			case "siblings-cut-at-48-bytes":
+				data = []byte(src[:min(48, len(src))])
+			}
+			_ = os.WriteFile(filepath.Join(it.Dir, band(f)), data, 0o644)
+		}
+		pipe.RunCLIHow(it, nil, "last-alone")
+		rmu.Lock()
+		*runs++
+		rmu.Unlock()
+		got, _ := os.ReadFile(filepath.Join(it.Dir, last))
+		if vi == 0 {
+			ref = string(got)
+			if it.CLIErr != nil || ref == "" {
+				c.Inconclusive(fmt.Sprintf("single-file gate: %q alone not generated: %s", srcs[len(srcs)-1], lastLines(it.CLIOut, 2)))
+				return
+			}
+			continue
+		}
+		if it.CLIErr != nil || string(got) != ref {
+			report(map[string]string{"kind": "gate-rerun-differs", "variant": "last-file-alone-" + variant, "program": it.Prog.Desc},
+				map[string]any{"reference": ref, "later": string(got), "cli_error": fmt.Sprint(it.CLIErr), "cli_output": lastLines(it.CLIOut, 3)}, "C11-single-"+corpus.Sanitize(it.Prog.Desc)+"-"+corpus.Sanitize(variant))
+			return
+		}
+	}
+}
+
 // rerunVariants regenerates one program under every rerun variant and compares with the first output.
 func rerunVariants(c *Ctx, pipe *pipeline.Pipe, it *pipeline.Item, rmu *sync.Mutex, runs *int, report func(sig map[string]string, art map[string]any, name string)) {
+	defer singleFileVariants(c, pipe, it, rmu, runs, report)
 	{
 		first := map[string]string{}
 		for k, v := range it.GenSrc {
